@@ -97,7 +97,7 @@ def _lattice_body(idx):
     """Client settings = ONE solver variable over the partition's product space (each point exactly one path); the server side
     (issuer of the peer's certificate, its SAN shape, the proxy's issuer) is enumerated by the harness inside every path."""
     from kit.h import decode_point
-    cr, ahx, fp, cak, host_i, proxy_pin = decode_point(idx, dims_of(P))
+    cr, ahx, fp, cak, host_i, proxy_pin = decode_point(idx, dims_of)
     ah, sh = (0, True) if ahx == 4 else (ahx, False)
     return N._untraced(_all_servers)(P.topo, P.py, P.never_cn, cr, ah, fp, sh, P.ctxs[0], cak, host_i, P.retries, proxy_pin)
 
@@ -318,6 +318,9 @@ def c07_lattice(idx: int) -> bool:
     post: _
     """
     return run(_lattice_body, idx)
+
+
+DIMS = {"c07_lattice": dims_of}
 
 
 def JOBS(tier):
